@@ -252,6 +252,18 @@ Proof.
   rewrite gen_list_GetIndex, gen_list_ContainsValue by (assumption || lia). split; reflexivity.
 Qed.
 
+(* ContainsAny / ContainsAll with an arbitrary sequence operand *)
+Theorem C01_gen_contains_any_all :
+  forall (A : Type) (zero : A) (eqb : A -> A -> bool) (n : val A) (l : list A) (sv : val A) (src : list A) (F : nat),
+    seq_operand A zero (cmp_ext eqb) sv src -> (Z.of_nat (length l) < two63)%Z -> length src + 200 <= F ->
+    run_method A zero (cmp_ext eqb) prog F (lst_val n l) id_ContainsAny [sv] = Ret (VBool (contains_any eqb l src), lst_val n l) /\
+    run_method A zero (cmp_ext eqb) prog F (lst_val n l) id_ContainsAll [sv] = Ret (VBool (contains_all eqb l src), lst_val n l).
+Proof.
+  intros A zero eqb n l sv src F OP HL HF. unfold run_method, call_at.
+  rewrite (gen_list_ContainsAny A zero eqb n l sv src), (gen_list_ContainsAll A zero eqb n l sv src) by assumption.
+  split; reflexivity.
+Qed.
+
 (* the history theorem (C01_history_refinement) for the generated methods, on the translated operations *)
 Theorem C01_gen_history_refinement :
   forall (A : Type) (zero : A) (eqb : A -> A -> bool)
@@ -291,5 +303,6 @@ Print Assumptions C01_gen_array_methods_compute_the_specification.
 Print Assumptions C01_gen_list_methods_compute_the_specification.
 Print Assumptions C01_gen_bulk_methods_compute_the_specification.
 Print Assumptions C01_gen_get_index_is_the_first_match.
+Print Assumptions C01_gen_contains_any_all.
 Print Assumptions C01_gen_history_refinement.
 Print Assumptions C01_gen_panic_leaves_unchanged.
